@@ -905,6 +905,15 @@ def inline_helpers(fn, resolve, depth=2):
                                 out += [at(p_, st) for p_ in pre] + body
                                 changed[0] = True
                                 continue
+                    if shape is not None and shape[0] == "expr":
+                        # the call is the statement's whole value: arguments that are not simple are evaluated first
+                        # anyway, so binding them to fresh locals in front of the statement keeps the order
+                        b = bind(h, call, recv)
+                        if b is not None and b[1]:
+                            sub, pre = b
+                            st.value = at(subst(shape[1], sub), st)
+                            out += [at(p_, st) for p_ in pre]
+                            changed[0] = True
                     if shape is not None and shape[0] == "stmts" and (kind != "stmt" or True):
                         b = bind(h, call, recv)
                         if b is not None and not (kind == "stmt" and False):
